@@ -84,6 +84,31 @@ func generic[T any](x T, f func(T) int) int {
 	return r
 }
 
+// plainCaller calls itself through an instantiated generic function: the stack
+// alternates main.plainCaller.func1, main.generic[...], main.plainCaller.
+//
+//go:noinline
+func plainCaller(k int, leaf func()) int {
+	return generic[int](k, func(x int) int {
+		if x > 0 {
+			return plainCaller(x-1, leaf) + 1
+		}
+		leaf()
+		return 0
+	})
+}
+
+//go:noinline
+func (b *box) viaGeneric(k int, leaf func()) int {
+	return generic[*box](b, func(bb *box) int {
+		if k > 0 {
+			return bb.viaGeneric(k-1, leaf) + 1
+		}
+		leaf()
+		return 0
+	})
+}
+
 //go:noinline
 func descend(k int, kind string) int {
 	if k > 0 {
@@ -134,6 +159,10 @@ func childMain(kind string) {
 	go func() { select {} }()
 	depth := 2
 	switch kind {
+	case "generic-chain": // generic instantiations followed outwards by same-package functions
+		defer recordStack()
+		sink = plainCaller(2, func() { sink = (&box{}).viaGeneric(1, func() { panic("x") }) })
+		return
 	case "longmsg": // a 200 KiB panic message before the goroutine stacks
 		defer recordStack()
 		sink = descendLong(2, strings.Repeat("secret-user-data ", 200*1024/17))
